@@ -60,8 +60,19 @@ def listing_files():
     return _FILES
 
 
+FATAL_BLOCK = (b'\n\n FATAL ERROR\n method name : T4_read_data\n error message : there are no source defined for any particle '
+               b'type declared \\\n in the SIMULATION block\n\n\n')
+
+
 def synth(data, kind):
     """synthetic variants of a listing: the last edition repeated / the first edition dropped"""
+    if kind == 'fatal':
+        # a job that stops before any result: the head of the listing followed by Tripoli-4's FATAL ERROR block
+        head = data.find(b' BATCH ')
+        head = data.find(b'RESULTS ARE GIVEN') if head < 0 else head
+        head = data[:max(head, 0)] if head >= 0 else data[:len(data) // 3]
+        head = head[:head.rfind(b'\n') + 1]
+        return head + FATAL_BLOCK
     start = data.find(b'RESULTS ARE GIVEN')
     if start < 0:
         return data
@@ -109,6 +120,11 @@ def gen(rng, tier, run):
         if flags:
             a, b = rng.choice(flags)
             off = rng.randrange(a, b + 1)
+    if rng.random() < 0.05:
+        data = synth(info['data'], 'fatal')
+        off = rng.randrange(max(0, len(data) - len(FATAL_BLOCK) - 3), len(data) + 1) if rng.random() < 0.85 \
+            else rng.randrange(0, len(data) + 1)
+        return {'file': name, 'offset': off, 'variant': 'fatal', 'fresh': False}
     variant = 'twice' if rng.random() < 0.1 else 'trailing' if rng.random() < 0.12 else 'plain'
     if variant == 'trailing':
         data = synth(info['data'], 'trailing')
